@@ -39,16 +39,17 @@ func vFx(v interface{}) (int64, bool) {
 }
 
 type vC04Sys struct {
-	c       *vCtx
-	cfgS    string
-	idx     *RoaringMetadataIndex
-	live    map[uint32]int // id -> doc index
-	rem     map[uint32]bool
-	seen    map[string]bool // fields ever indexed in this history
-	nAdd    int
-	maxDocs int
-	docs    []map[string]interface{} // document alphabet (nil = vC04Docs)
-	qs      []vC04Query
+	c         *vCtx
+	cfgS      string
+	idx       *RoaringMetadataIndex
+	live      map[uint32]int // id -> doc index
+	rem       map[uint32]bool
+	seen      map[string]bool // fields ever indexed in this history
+	nAdd      int
+	maxDocs   int
+	inRecheck bool
+	docs      []map[string]interface{} // document alphabet (nil = vC04Docs)
+	qs        []vC04Query
 }
 
 type vC04Query struct {
@@ -285,14 +286,15 @@ func vFilterStr(f Filter) string {
 
 func (s *vC04Sys) observe(h []string) {
 	mkey := s.Key()
-	canonBefore := vCanonMeta(s.idx)
-	defer func() {
-		// searching must not modify the index (e.g. by combining into a stored bitmap)
-		s.c.Evaluations++
-		if after := vCanonMeta(s.idx); after != canonBefore {
-			s.c.Violation("search-modified-index", "", s.cfgS, h, fmt.Sprintf("index state before the queries [%s] after [%s]", canonBefore, after))
-		}
-	}()
+	if !s.inRecheck {
+		defer func() {
+			// searching must not change later answers: after the trees, the whole pass
+			// (single filters, negations, trees) is evaluated once more against the model
+			s.inRecheck = true
+			s.observe(h)
+			s.inRecheck = false
+		}()
+	}
 	// (0) empty filter list = all live documents
 	s.c.Evaluations++
 	if got, err := s.run(vC04Query{}); err != nil {
